@@ -14,7 +14,7 @@ use super::load_error::{LoadError, LoadErrorImpl, load_error};
 use super::metadata::{MetadataField, ModelMetadata};
 use super::{Model, ModelOptions, OptimizeMode};
 use crate::constant_storage::{ArcSlice, ArcTensorView, ConstantStorage};
-use crate::graph::{CaptureEnv, ConstantNodeData, Dimension, Graph, NodeId};
+use crate::graph::{CaptureEnv, ConstantNodeData, Dimension, Graph, Node, NodeId};
 use crate::op_registry::rten_registry::{OpLoadContext, convert_dtype};
 use crate::op_registry::{OpRegistry, ReadOpError};
 use crate::optimize::GraphOptimizer;
@@ -258,11 +258,19 @@ fn add_graph_operator(
                 continue;
             }
             let index_usize = node_index as usize;
-            if let Some(node_id) = node_id_from_index.get(&index_usize) {
-                inputs.push(Some(*node_id))
-            } else {
+            let Some(node_id) = node_id_from_index.get(&index_usize) else {
                 return Err(load_error!(GraphError, name, "operator input is invalid"));
+            };
+            // Operators consume values and constants. The index of an
+            // operator node is not a valid input.
+            if let Some(Node::Operator(_)) = graph.get_node(*node_id) {
+                return Err(load_error!(
+                    GraphError,
+                    name,
+                    "operator input is not a value or constant"
+                ));
             }
+            inputs.push(Some(*node_id));
         }
     }
 
@@ -519,6 +527,29 @@ mod tests {
         assert_eq!(
             err.to_string(),
             "in node \"relu_op\": operator error: operator has 2 inputs but maximum is 1"
+        );
+    }
+
+    #[test]
+    fn test_operator_input_is_operator() {
+        let mut builder = ModelBuilder::default();
+
+        let mut gb = builder.graph_builder();
+        let x = gb.add_value("x", None, None);
+        let y = gb.add_value("y", None, None);
+        let z = gb.add_value("z", None, None);
+        let relu_op = gb.add_operator("relu_op", OpType::Relu, &[Some(x)], &[y]);
+        gb.add_operator("sigmoid_op", OpType::Sigmoid, &[Some(relu_op)], &[z]);
+        gb.add_input(x);
+        gb.add_output(z);
+        let graph = gb.finish();
+        builder.set_graph(graph);
+
+        let err = load_from_builder(builder).err().unwrap();
+
+        assert_eq!(
+            err.to_string(),
+            "in node \"sigmoid_op\": graph error: operator input is not a value or constant"
         );
     }
 }
